@@ -47,7 +47,8 @@ def enlarge(b, rng, p):
 
 def cases(rng, tier):
     out = []
-    lens = [0, 1, 255] + ([70000] if tier != "quick" else [5000])
+    # 65535 / 65536 / 131072: payload lengths at the block sizes a chunked reader would use (an exact multiple of the block is the case that goes wrong)
+    lens = [0, 1, 255, 65536] + ([70000, 65535, 131072] if tier != "quick" else [5000])
     for subset in range(16):
         for year_bin, fullbox, handler, hdlr_first in itertools.product((False, True), (True, False), ("mdir", "mdta"), (True, False)):
             if not fullbox and not hdlr_first:
